@@ -6,6 +6,7 @@ PcModel/HardLoops.lean).  `WSD x y z b lo hi` (PcProofs/HardD.lean) = value of t
 Only property theorems, non-vacuity examples and the axiom audit live here.
 -/
 import PcProofs.HardDDefs
+import PcProofs.HardDSpec
 import PcProofs.HardExamples
 
 namespace Pc.C08HardD
@@ -56,6 +57,28 @@ theorem d_independent_of_run {σ : Type} (S : SieveOps σ) {e : Env} {tmax x y z
   rw [d_region_total S hS lc hlc threads1 print1 hE hF hyz hsz hxs hk es1 v1 h1,
     d_region_total S hS lc hlc threads2 print2 hE hF hyz hsz hxs hk es2 v2 h2]
 
+/-- the window `[0, x/z)` holds every D-leaf: the class `Spec.D` of `gourdon_decomp`, for every admissible `(y, z, k, x⋆)` -/
+theorem d_window_full {x y z k xs c3 : ℕ} (g : Spec.GParams x y z k xs c3) :
+    dF x y z k xs (0, x / z) = Spec.D x y z k xs := WSD_total_eq_D g
+
+/-- **`d_chunks_total`** — any chain of windows from `0` to `x/z` sums to `Spec.D x y z k x⋆` -/
+theorem d_chunks_total {x y z k xs c3 : ℕ} (g : Spec.GParams x y z k xs c3) {cs : List LB.Chunk}
+    (hch : LB.Chain 0 (x / z) cs) : LB.sumF (dF x y z k xs) cs = Spec.D x y z k xs := by
+  have h := LB.Chain.sum_additive (dF_additive x y z k xs) hch
+  have he := (dF_additive x y z k xs).empty (x / z)
+  rw [h, he, sub_zero, d_window_full g]
+
+/-- **`D_OpenMP` = `Spec.D`** for every accepted run and every admissible parameter choice (`GParams` with `x⋆ = xStar x y`) -/
+theorem d_region_eq_spec {σ : Type} (S : SieveOps σ) {e : Env} {tmax x y z k c3 : ℕ}
+    (g : Spec.GParams x y z k (xStar x y) c3)
+    (hS : ∀ K, K ≤ π y → ∃ H : SieveSpec S K, ∀ low seg, 240 ∣ low → 240 ∣ seg → 0 < seg → H.segOK low seg)
+    (lc : LB.Consts) (hlc : lc.WF) (threads : ℕ) (print : Bool)
+    (hE : EnvOK e y) (hF : FactorDOK e tmax y z) (hk : 4 ≤ k)
+    (es : List LB.S2.Ev) (v : ℤ) (h : dOpenMP S e lc x y z k threads print es = .ok v) :
+    v = Spec.D x y z k (xStar x y) := by
+  obtain ⟨h1, h2, h3⟩ := gparams_dThread_hyps g
+  rw [d_region_total S hS lc hlc threads print hE hF h1 h2 h3 hk es v h, d_window_full g]
+
 /-! non-vacuity (tests, labelled as such): the table hypotheses are satisfiable -/
 example : EnvOK (idealEnv 100 65535 400) 100 := idealEnv_ok 100 65535 400
 
@@ -65,3 +88,6 @@ end Pc.C08HardD
 #print axioms Pc.C08HardD.d_chunk_additive
 #print axioms Pc.C08HardD.d_region_total
 #print axioms Pc.C08HardD.d_independent_of_run
+#print axioms Pc.C08HardD.d_window_full
+#print axioms Pc.C08HardD.d_chunks_total
+#print axioms Pc.C08HardD.d_region_eq_spec
